@@ -83,8 +83,17 @@ typedef struct {
 	lzma_options_delta delta;
 	lzma_options_bcj bcj;
 	uint8_t preset[64];
+	uint8_t *heap_preset;   // exactly sized preset dictionary set up by c04_chain_mods (freed by c04_chain_done)
 } c04_chain_store;
 #define C04_N_CHAINS 24
 bool c04_chain(unsigned variant, lzma_filter *f, c04_chain_store *st);
+// Decoder-side option modifiers for the LZMA filter of a valid chain (variant < 24), packed in one word:
+//   byte 0 % 6: preset dictionary: 0 as the chain says, 1: 1 byte, 2: 100 bytes, 3: dict_size bytes, 4: dict_size + 1000, 5: 64
+//   byte 1 % 76: 0 as the chain says, else lc/lp/pb = the (n-1)-th of the 75 valid combinations (LZMA1 / LZMA1EXT only matter)
+//   byte 2 % 9: dictionary size: 0 as the chain says, else 0, 1, 4095, 4096, 4097, 65536, 1 MiB, 1 MiB + 1
+//   byte 3 % 4: LZMA1EXT ext_flags: 0 as the chain says, 1: none, 2: ALLOW_EOPM, 3: an unsupported bit (-> LZMA_OPTIONS_ERROR)
+// `encoder`: keep the options acceptable to the encoders (dictionary >= 4096, valid ext_flags).
+void c04_chain_mods(c04_chain_store *st, uint64_t mods, bool encoder);
+void c04_chain_done(c04_chain_store *st);
 
 #endif
